@@ -883,6 +883,9 @@ func TestC12BindInitiator(t *testing.T) {
 			if !s.LocalAddr().Equal(assigned) {
 				fail("server assigned %s but the session reports %s", assigned, s.LocalAddr())
 			}
+			if in, out := s.In(), s.Out(); !in.To.Equal(assigned) || !out.From.Equal(assigned) {
+				fail("server assigned %s; afterwards In().To = %s and Out().From = %s", assigned, in.To, out.From)
+			}
 		default:
 			if err == nil {
 				fail("bind reply %q accepted: session state %v addr %s", policy, s.State(), s.LocalAddr())
